@@ -13,7 +13,7 @@ import json, os, re, shutil, subprocess, sys, hashlib
 ENV = dict(os.environ, GOFLAGS="-mod=mod", GOPROXY="off", GOSUMDB="off", GOTOOLCHAIN="local")
 
 def sh(cmd, cwd=None, env=None, timeout=3600):
-    p = subprocess.run(cmd, shell=True, cwd=cwd, env=env or ENV, capture_output=True, text=True, timeout=timeout)
+    p = subprocess.run(cmd, shell=True, cwd=cwd, env=env or ENV, capture_output=True, text=True, errors="replace", timeout=timeout)
     return p.returncode, (p.stdout + p.stderr)
 
 def main():
